@@ -14,7 +14,13 @@
 
 namespace vf {
 
-struct TCfg { uint8_t lg_k1, lg_k2; int rf; float p; uint64_t seed; uint64_t domain; uint32_t max_batch; };
+struct TCfg { uint8_t lg_k1, lg_k2; int rf; float p; uint64_t seed; uint64_t domain; uint32_t max_batch; int rf2; float p2; uint64_t seed2; };
+// objects of one pool get one of two configurations, so assignment has to transfer every configuration field
+inline TCfg tcfg_variant(const TCfg& c, Rng& r, bool vary_seed) {
+  TCfg v = c;
+  if (r.coin()) { v.p = c.p2; v.rf = c.rf2; if (vary_seed) v.seed = c.seed2; }
+  return v;
+}
 inline TCfg gen_tcfg(Rng& r) {
   TCfg c;
   c.lg_k1 = static_cast<uint8_t>(r.range(5, 9)); c.lg_k2 = r.coin() ? c.lg_k1 : static_cast<uint8_t>(r.range(5, 9));
@@ -22,13 +28,14 @@ inline TCfg gen_tcfg(Rng& r) {
   static const float ps[] = {1.0f, 1.0f, 1.0f, 0.5f, 0.05f};
   c.p = ps[r.below(5)];
   c.seed = r.coin() ? datasketches::DEFAULT_SEED : r.next();
+  c.rf2 = static_cast<int>(r.below(4)); c.p2 = ps[r.below(5)]; c.seed2 = r.next();
   c.domain = r.chance(0.3) ? 200 : 1000000;
   c.max_batch = r.chance(0.3) ? 3000 : (r.coin() ? 300 : 20);
   return c;
 }
 inline std::string tcfg_str(const TCfg& c) {
   return "lg_k1=" + std::to_string(c.lg_k1) + " lg_k2=" + std::to_string(c.lg_k2) + " rf=" + std::to_string(c.rf) + " p=" + str(c.p) +
-         " seed=" + std::to_string(c.seed) + " domain=" + std::to_string(c.domain) + " max_batch=" + std::to_string(c.max_batch);
+         " seed=" + std::to_string(c.seed) + " rf2=" + std::to_string(c.rf2) + " p2=" + str(c.p2) + " domain=" + std::to_string(c.domain) + " max_batch=" + std::to_string(c.max_batch);
 }
 
 template<typename Sk, typename TT> std::string thetalike_readout(const Sk& s) {
@@ -52,7 +59,7 @@ template<typename TT> struct TLUpdateFam {
   static const char* name() { static const std::string n = std::string(TT::fam()) + "_update"; return n.c_str(); }
   static Cfg gen_cfg(Rng& r) { return gen_tcfg(r); }
   static std::string cfg_str(const Cfg& c) { return tcfg_str(c); }
-  static void construct(void* mem, const Cfg& c, Arena* a, Rng& r) { TT::make_update(mem, c, r.coin() ? c.lg_k1 : c.lg_k2, a); }
+  static void construct(void* mem, const Cfg& c, Arena* a, Rng& r) { const TCfg v = tcfg_variant(c, r, true); TT::make_update(mem, v, r.coin() ? c.lg_k1 : c.lg_k2, a); }
   static void mutate(Obj& o, const Cfg& c, Rng& r, Arena*) {
     if (r.chance(0.1)) { o.trim(); xcount(std::string(name()) + ".trim"); return; }
     fill_update<TT>(o, c, r);
@@ -86,7 +93,8 @@ template<typename TT> struct TLCompactFam {
   static std::string cfg_str(const Cfg& c) { return tcfg_str(c); }
   static void construct(void* mem, const Cfg& c, Arena* a, Rng& r) {
     alignas(typename TT::UpdateSk) unsigned char um[sizeof(typename TT::UpdateSk)];
-    TT::make_update(um, c, r.coin() ? c.lg_k1 : c.lg_k2, a);
+    const TCfg v = tcfg_variant(c, r, false);
+    TT::make_update(um, v, r.coin() ? c.lg_k1 : c.lg_k2, a);
     typename TT::UpdateSk& u = *std::launder(reinterpret_cast<typename TT::UpdateSk*>(um));
     struct G { typename TT::UpdateSk& u; ~G() { typedef typename TT::UpdateSk U; u.~U(); } } g{u};
     fill_update<TT>(u, c, r);
@@ -135,7 +143,7 @@ template<typename TT> struct TLUnionFam {
   static const char* name() { static const std::string n = std::string(TT::fam()) + "_union"; return n.c_str(); }
   static Cfg gen_cfg(Rng& r) { return gen_tcfg(r); }
   static std::string cfg_str(const Cfg& c) { return tcfg_str(c); }
-  static void construct(void* mem, const Cfg& c, Arena* a, Rng& r) { TT::make_union(mem, c, r.coin() ? c.lg_k1 : c.lg_k2, a); }
+  static void construct(void* mem, const Cfg& c, Arena* a, Rng& r) { const TCfg v = tcfg_variant(c, r, false); TT::make_union(mem, v, r.coin() ? c.lg_k1 : c.lg_k2, a); }
   static void mutate(Obj& o, const Cfg& c, Rng& r, Arena* scratch) { feed_setop<TT>(o, c, r, scratch, name()); }
   static std::string readout(const Obj& o, const Cfg&) {
     auto res = o.get_result(true);
